@@ -27,7 +27,7 @@ EXTRA_TECH = {
     "C18": "; optimiser replaced by its contract",
     "C19": "; scipy.stats as uninterpreted functions with signature normalisation",
 }
-NOT_APPLICABLE = [{"property_id": "C17", "reason": "harness not built yet (work in progress; see DESIGN.md 3/C17 for the planned inductive-step encoding of ABC._perform_generation)"}]
+NOT_APPLICABLE = []
 
 
 def main():
